@@ -2,6 +2,11 @@
 # usage: tools/sweep.sh <tier> <seed>...   runs every check at the given seeds, prints one line per run
 tier=$1; shift
 cd /verif
+# a sweep never shares scratch space, evidence or replays with interactive runs
+export VF_WORK=${VF_WORK:-/var/tmp/vf-work-sweep}
+export VF_EVIDENCE_DIR=$VF_WORK/evidence
+export VF_REPLAY_DIR=$VF_WORK/replays
+mkdir -p "$VF_WORK"
 for seed in "$@"; do
   for p in C01 C02 C03 C04 C05 C06 C07 C08 C09 C10 C11 C12 C13 C14 C15 C16 C17 C18 C19 C20; do
     out=$(./check $p --tier $tier --seed $seed 2>&1); rc=$?
